@@ -122,7 +122,7 @@ ROUND4 = {
  "C19": (" Round 4: self-sent INT/QUIT after asynchronous commands; scripts that reach for the shell-reserved descriptors 10/11 while a redirection is in effect.", None),
  "C20": (" Round 4: lone `-` and `+` operands for export/readonly/typeset/unset/alias/type; every ulimit resource set through its short option and queried through every spelling.", None),
 }
-ROUND4["C02"] = (ROUND4["C02"][0] + " Command-less scripts slice: 9 texts without any command (empty, blanks, newlines, comments, line continuations) through eval, `.`, -c, in functions, subshells and and-or lists after a command that returned 5: status 0.", None)
+ROUND4["C02"] = (ROUND4["C02"][0] + " Command-less scripts slice: 9 texts without any command (empty, blanks, newlines, comments, line continuations) through eval, `.`, -c, in functions, subshells and and-or lists after a command that returned 5: status 0.", "vsh-virtual + vsh-real")
 ROUND4["C03"] = (" Shell-maintained variables slice: $((x)) vs $(($x)) for LINENO, OPTIND, PPID and an ordinary variable in 4 expression shapes at 4 positions (known finding: LINENO).", None)
 ROUND4["C04"] = (" Quoted `-` `]` `!` `^` `[` inside bracket expressions are literal members in model and workload (bracket bodies to length 3 / 4 over 29 tokens); tilde-result slice: 9 HOME values that look like patterns x 15 strings, `case $s in ~)`, `~/t`, and the four trims must treat the tilde result literally.", None)
 ROUND4["C13"] = (ROUND4["C13"][0] + " Harmless-signals slice: CONT / URG / WINCH / CHLD / null signal sent to children that may have finished already, 4 shapes x FIFO + 11/299 random schedules: wait still reports the child's own status, everything terminates and is reaped. Real-kernel stress (checks/c13r.rs): 8 / 16 shards x 60 / 1200 rounds of asynchronous lists, pipelines (with and without pipefail), substitutions and waits in every order with known statuses; nothing hangs, nothing is left unreaped.", "vsh-virtual + vsh-real")
